@@ -1,5 +1,308 @@
-//! (to be written)
-pub fn cmd(_args: &crate::Args) {
-    eprintln!("names: not implemented yet");
-    std::process::exit(2);
+//! C17: which directory entries are treated as WAL files, and what the library creates / removes.
+//!
+//! (a) `name` lines: a directory holding one valid (empty) WAL file plus ONE foreign entry whose
+//!     name is a near miss of a WAL file name, as a regular file, a directory or a symlink to a
+//!     valid WAL file; `open` + a few calls + a clean restart; was the entry listed as a WAL file,
+//!     was it left untouched.
+//! (b) `dirhist` lines: ordinary histories with roll-over and GC run in a directory pre-populated
+//!     with WAL files numbered with gaps (3, 7, 8) and foreign entries; which numbers were opened,
+//!     created, unlinked, in which order blocks were read, what the directory holds at the end.
+use std::collections::BTreeMap;
+use std::os::unix::ffi::OsStrExt;
+use std::path::{Path, PathBuf};
+use std::sync::Arc;
+
+use mrecordlog::verif::{self, IoEvent};
+use serde_json::{json, Value};
+
+use crate::crash::{materialize_extras, Extra};
+use crate::exec::{run_script_in, TempDir};
+use crate::script::{Payload, Script, Step};
+use crate::{load_scripts, parallel, write_lines, Args, Output};
+
+const FILE_BYTES: usize = 4 * 32_768;
+const VALID: &[u8] = b"wal-00000000000000000007";
+
+fn near_miss_names() -> Vec<Vec<u8>> {
+    let mut names: Vec<Vec<u8>> = Vec::new();
+    let base = b"wal-00000000000000000009".to_vec();
+    // single edits at every position
+    for pos in 0..base.len() {
+        for replacement in [b'5', b'x', b'-', b' ', b'+', b'W', b'.', 0x7f] {
+            if base[pos] != replacement {
+                let mut name = base.clone();
+                name[pos] = replacement;
+                names.push(name);
+            }
+        }
+        // a non-ASCII digit (ARABIC-INDIC DIGIT THREE, 2 bytes) in place of one byte
+        let mut name = base.clone();
+        name.splice(pos..pos + 1, [0xd9, 0xa3]);
+        names.push(name);
+        // full-width digit (3 bytes)
+        let mut name = base.clone();
+        name.splice(pos..pos + 1, [0xef, 0xbc, 0x95]);
+        names.push(name);
+        // deletion, insertion
+        let mut name = base.clone();
+        name.remove(pos);
+        names.push(name);
+        let mut name = base.clone();
+        name.insert(pos, b'1');
+        names.push(name);
+        // invalid UTF-8
+        let mut name = base.clone();
+        name[pos] = 0xff;
+        names.push(name);
+    }
+    // lengths: "wal-" + k digits, k = 0..=23
+    for k in 0..=23 {
+        let mut name = b"wal-".to_vec();
+        name.extend(std::iter::repeat(b'1').take(k));
+        names.push(name);
+    }
+    // the u64 boundary
+    names.push(b"wal-18446744073709551615".to_vec());
+    names.push(b"wal-18446744073709551616".to_vec());
+    names.push(b"wal-18446744073709551614".to_vec());
+    names.push(b"wal-99999999999999999999".to_vec());
+    names.push(b"wal-09223372036854775808".to_vec());
+    // valid names
+    names.push(b"wal-00000000000000000009".to_vec());
+    names.push(b"wal-00000000004294967296".to_vec());
+    names.push(b"WAL-00000000000000000009".to_vec());
+    names.push(b"wal_00000000000000000009".to_vec());
+    names.push(b"wal-0000000000000000000a".to_vec());
+    names.push(b"wal-00000000000000000009.tmp".to_vec());
+    names.push(b".wal-00000000000000000009".to_vec());
+    names.push(b"wal-".to_vec());
+    names.push(b"w".to_vec());
+    names.sort();
+    names.dedup();
+    names.retain(|name| !name.is_empty() && name.as_slice() != VALID && !name.contains(&b'/') && !name.contains(&0));
+    names
+}
+
+fn entry_fingerprint(path: &Path) -> String {
+    match std::fs::symlink_metadata(path) {
+        Err(_) => "absent".to_string(),
+        Ok(meta) => {
+            if meta.file_type().is_symlink() {
+                format!("link:{:?}", std::fs::read_link(path).ok())
+            } else if meta.is_dir() {
+                let count = std::fs::read_dir(path).map(|iter| iter.count()).unwrap_or(0);
+                format!("dir:{count}")
+            } else {
+                let content = std::fs::read(path).unwrap_or_default();
+                format!("file:{}:{}", content.len(), crate::script::digest(&content))
+            }
+        }
+    }
+}
+
+fn small_script(name: &str) -> Script {
+    Script {
+        name: name.to_string(),
+        policy: "always_flush".to_string(),
+        queues: vec!["q".to_string()],
+        anchors: crate::gen::anchors(),
+        steps: vec![
+            Step::Create { q: 0 },
+            Step::Append {
+                q: 0,
+                pos: None,
+                batch: vec![Payload { seed: 1, len: 100_000, embed: None }, Payload { seed: 2, len: 100_000, embed: None }],
+            },
+            Step::Truncate { q: 0, p: 1 },
+            Step::Restart,
+            Step::Append { q: 0, pos: None, batch: vec![Payload { seed: 3, len: 10, embed: None }] },
+        ],
+    }
+}
+
+fn io_numbers(events: &[IoEvent]) -> (Vec<u64>, Vec<u64>, Vec<u64>, Vec<Vec<u64>>, Vec<u64>) {
+    let (mut opened, mut created, mut unlinked, mut listed, mut read) = (vec![], vec![], vec![], vec![], vec![]);
+    for event in events {
+        match event {
+            IoEvent::Open { file } => opened.push(*file),
+            IoEvent::Create { file } => created.push(*file),
+            IoEvent::Unlink { file } => unlinked.push(*file),
+            IoEvent::ListDir { files } => {
+                let mut sorted = files.clone();
+                sorted.sort();
+                listed.push(sorted)
+            }
+            IoEvent::ReadBlock { file, .. } => read.push(*file),
+            _ => {}
+        }
+    }
+    (opened, created, unlinked, listed, read)
+}
+
+fn dir_names(path: &Path) -> Vec<Vec<u8>> {
+    let mut names: Vec<Vec<u8>> = std::fs::read_dir(path)
+        .map(|iter| iter.flatten().map(|entry| entry.file_name().as_bytes().to_vec()).collect())
+        .unwrap_or_default();
+    names.sort();
+    names
+}
+
+fn bytes_json(name: &[u8]) -> Vec<i64> {
+    name.iter().map(|byte| *byte as i64).collect()
+}
+
+/// u64 numbers do not fit TLC's integers: log them as decimal digit sequences
+fn digits(number: u64) -> Vec<i64> {
+    format!("{number:020}").bytes().map(|byte| (byte - b'0') as i64).collect()
+}
+
+pub fn cmd(args: &Args) {
+    let out_dir = PathBuf::from(args.get("out", "/dev/shm/mrl-out"));
+    let output = Arc::new(Output::new(&out_dir));
+    let names = Arc::new(near_miss_names());
+    let kinds = ["file", "dir", "symlink"];
+    let n_name_jobs = names.len() * kinds.len();
+    let scripts = Arc::new(load_scripts(args));
+    let n_jobs = n_name_jobs + scripts.len();
+    let output_in = output.clone();
+    parallel(n_jobs, args.num("jobs", 8) as usize, &out_dir, "trace", move |job, file| {
+        if job < n_name_jobs {
+            // ---- (a) one foreign entry next to a valid WAL file
+            let name = &names[job / kinds.len()];
+            let kind = kinds[job % kinds.len()];
+            let dir = TempDir::new();
+            std::fs::write(dir.path.join(std::ffi::OsStr::from_bytes(VALID)), vec![0u8; FILE_BYTES]).unwrap();
+            let target = dir.path.join(std::ffi::OsStr::from_bytes(name));
+            let extra = match kind {
+                "file" => Extra::File { name: name.clone(), content: b"foreign content".to_vec() },
+                "dir" => Extra::Dir { name: name.clone() },
+                _ => Extra::Symlink { name: name.clone(), target: VALID.to_vec() },
+            };
+            materialize_extras(&[extra], &dir.path);
+            let before = entry_fingerprint(&target);
+            let valid_before = entry_fingerprint(&dir.path.join(std::ffi::OsStr::from_bytes(VALID)));
+            let script = small_script(&format!("name-{job}"));
+            let (record, runner) = run_script_in(&script, job, dir, &BTreeMap::new());
+            let mut events: Vec<IoEvent> = record.open_events.clone();
+            for step in &record.steps {
+                events.extend(step.events.iter().cloned());
+            }
+            drop(runner.log);
+            let (opened, created, unlinked, listed, _read) = io_numbers(&events);
+            let after = entry_fingerprint(&target);
+            // accepted: the first listing saw more than the one valid file
+            let accepted = listed.first().map(|files| files.len() > 1).unwrap_or(false);
+            let _ = valid_before;
+            let line = json!({
+                "ev": "name", "bytes": bytes_json(name), "kind": kind, "accepted": accepted as i64,
+                "untouched": (before == after) as i64,
+                "aborted": record.aborted as i64,
+                "nlisted": listed.first().map(|files| files.len()).unwrap_or(0),
+                "nopened": opened.len(), "ncreated": created.len(), "nunlinked": unlinked.len(),
+            });
+            output_in.add("name_cases", 1);
+            if accepted {
+                output_in.add("name_accepted", 1);
+            }
+            output_in.sample(json!({"name_bytes": String::from_utf8_lossy(name), "kind": kind, "accepted": accepted}));
+            // a self-contained trace: run line + the name line
+            let mut run_line = record.run_line.clone();
+            run_line["script"] = json!(format!("name-{job}"));
+            write_lines(file, &[run_line, line]);
+            drop(runner.dir);
+        } else {
+            // ---- (b) a history in a directory with numbering gaps and foreign entries
+            let script = &scripts[job - n_name_jobs];
+            std::fs::write(
+                output_in.dir.join("scripts").join(format!("{}.json", script.name)),
+                serde_json::to_vec(script).unwrap(),
+            )
+            .unwrap();
+            let dir = TempDir::new();
+            let initial = [3u64, 7, 8];
+            for number in initial {
+                std::fs::write(dir.path.join(format!("wal-{number:020}")), vec![0u8; FILE_BYTES]).unwrap();
+            }
+            let foreign: Vec<Extra> = vec![
+                Extra::File { name: b"wal-0000000000000000001".to_vec(), content: b"short name".to_vec() },
+                Extra::File { name: b"wal-000000000000000000010".to_vec(), content: b"long name".to_vec() },
+                Extra::File { name: b"wal-0000000000000000000x".to_vec(), content: vec![7u8; 40_000] },
+                Extra::File { name: b"notes.txt".to_vec(), content: b"hello".to_vec() },
+                Extra::Dir { name: b"wal-00000000000000000005".to_vec() },
+                Extra::Symlink { name: b"wal-00000000000000000006".to_vec(), target: b"wal-00000000000000000003".to_vec() },
+                Extra::File { name: vec![b'w', b'a', b'l', b'-', 0xff], content: vec![1, 2, 3] },
+            ];
+            materialize_extras(&foreign, &dir.path);
+            let foreign_names: Vec<Vec<u8>> = foreign
+                .iter()
+                .map(|extra| match extra {
+                    Extra::File { name, .. } | Extra::Dir { name } | Extra::Symlink { name, .. } => name.clone(),
+                })
+                .collect();
+            let before: Vec<String> = foreign_names
+                .iter()
+                .map(|name| entry_fingerprint(&dir.path.join(std::ffi::OsStr::from_bytes(name))))
+                .collect();
+            let (record, runner) = run_script_in(script, job, dir, &BTreeMap::new());
+            let mut events: Vec<IoEvent> = record.open_events.clone();
+            for step in &record.steps {
+                events.extend(step.events.iter().cloned());
+            }
+            drop(runner.log);
+            let after: Vec<String> = foreign_names
+                .iter()
+                .map(|name| entry_fingerprint(&runner.dir.path.join(std::ffi::OsStr::from_bytes(name))))
+                .collect();
+            let (opened, created, unlinked, listed, read) = io_numbers(&events);
+            let final_names = dir_names(&runner.dir.path);
+            // replay order: within each open (between two listings) block reads visit files in
+            // non-decreasing numeric order
+            let mut order_ok = true;
+            {
+                let mut last: Option<u64> = None;
+                for event in &events {
+                    match event {
+                        IoEvent::ListDir { .. } => last = None,
+                        IoEvent::ReadBlock { file, .. } => {
+                            if let Some(previous) = last {
+                                if *file < previous {
+                                    order_ok = false;
+                                }
+                            }
+                            last = Some(*file);
+                        }
+                        _ => {}
+                    }
+                }
+            }
+            let _ = read;
+            let line = json!({
+                "ev": "dirhist", "initial": initial.iter().map(|number| digits(*number)).collect::<Vec<_>>(),
+                "listed": listed.iter().map(|files| files.iter().map(|number| digits(*number)).collect::<Vec<_>>()).collect::<Vec<_>>(),
+                "opened": opened.iter().map(|number| digits(*number)).collect::<Vec<_>>(),
+                "created": created.iter().map(|number| digits(*number)).collect::<Vec<_>>(),
+                "unlinked": unlinked.iter().map(|number| digits(*number)).collect::<Vec<_>>(),
+                "foreign": foreign_names.iter().map(|name| bytes_json(name)).collect::<Vec<_>>(),
+                "foreign_ok": (before == after) as i64,
+                "order_ok": order_ok as i64,
+                "final": final_names.iter().map(|name| bytes_json(name)).collect::<Vec<_>>(),
+                "aborted": record.aborted as i64,
+            });
+            output_in.add("dirhist_cases", 1);
+            output_in.add("dirhist_created", created.len() as u64);
+            output_in.add("dirhist_unlinked", unlinked.len() as u64);
+            output_in.add("runs", 1);
+            output_in.add("calls", record.steps.len() as u64);
+            let mut record = record;
+            record.run_line["prepop"] = json!(1);
+            let mut lines = crate::crash::assemble(&record, Vec::new());
+            lines.push(line);
+            write_lines(file, &lines);
+            drop(runner.dir);
+        }
+    });
+    let _: Option<Value> = None;
+    verif::stop_recording();
+    output.finish(json!({"cmd": "names"}));
+    crate::exec::cleanup_scratch();
 }
